@@ -33,6 +33,28 @@ def ident(a: T) -> T: return a
 def first(xs: list[T]) -> T: return xs[0]
 def pair(a: int, b: str) -> tuple[int, str]: return (a, b)
 def opt(a: int) -> int | None: return a if a else None
+# unannotated helpers whose return value is inferred from their bodies; each of them can fall off its end
+def hg1(cc):
+    if cc:
+        return 1
+def hg2(cc):
+    for q in cc:
+        return q
+def hg3(cc):
+    while cc:
+        return 'a'
+def hg4(cc):
+    try:
+        return cc[0]
+    except Exception:
+        pass
+def hg5(cc):
+    if cc:
+        return cc
+    elif cc is None:
+        return
+    else:
+        raise ValueError
 '''
 PRELUDE = U.PRELUDE + HELPERS
 NPRE = PRELUDE.count("\n")
@@ -90,6 +112,14 @@ S1 = [
     "match x:\n        case [a, *r, b]:\n            v = (a, r, b)\n        case [*r]:\n            v = r\n        case _:\n            v = {e}",
     "match x:\n        case None if c():\n            v = 0\n        case int() if c():\n            v = 1\n        case _:\n            v = x",
     "match {e}:\n        case int() | str() if c():\n            v = 0\n        case _:\n            v = x",
+    # loop else clauses that read a variable assigned in the loop body
+    "v = 0\n    while c():\n        v = {e}\n    else:\n        use(v)",
+    "v = 0\n    while c():\n        v = {e}\n        if c():\n            break\n    else:\n        use(v)\n    use(v)",
+    "v = 0\n    for w in x:\n        v = {e}\n    else:\n        use(v)",
+    # calls of unannotated helpers that can fall off their end (implicit return None)
+    "v = hg1({e})",
+    "v = (hg2(({e},) if c() else ()), hg3(c()))",
+    "v = hg4(x)\n    w = hg5({e})\n    use(w)",
 ]
 S2 = [
     "w = v\n    use(w)",
